@@ -39,6 +39,16 @@ func init() { reg.Register("c13-cond-stress", stressMain) }
 // Prints "ok ..." or "VIOLATION kind=<kind> ...".
 func stressMain(args []string) {
 	seed, _ := strconv.ParseInt(args[0], 10, 64)
+	if len(args) > 1 {
+		switch args[1] {
+		case "bcast-expiry":
+			bcastExpiry(seed, atoiOr(args, 2, 30), atoiOr(args, 3, 32), atoiOr(args, 4, 200))
+			return
+		case "first-use":
+			firstUse(seed, atoiOr(args, 2, 300))
+			return
+		}
+	}
 	rounds, _ := strconv.Atoi(args[1])
 	maxW, _ := strconv.Atoi(args[2])
 	if maxW < 2 {
@@ -230,4 +240,240 @@ func dump() {
 		n = 6000
 	}
 	fmt.Printf("goroutines:\n%s\n", buf[:n])
+}
+
+func atoiOr(args []string, i, def int) int {
+	if i < len(args) {
+		if v, err := strconv.Atoi(args[i]); err == nil {
+			return v
+		}
+	}
+	return def
+}
+
+const bound = 8 * time.Second // generous: only elapses on a genuine hang
+
+// bcastExpiry — directed scenario "broadcast-racing-expiry":
+//
+//	c13-cond-stress <seed> bcast-expiry <rounds> <waiters> <probes>
+//
+// One Cond for all rounds. Per round: <waiters> goroutines share ONE cancellable context and all enqueue; then
+// cancel() and Broadcast() are fired together. Every waiter must return (nil or the context's error). Afterwards
+// NOBODY signals any more, and <probes> probe waiters with a ~2 ms timeout (they recycle the pooled wait-nodes)
+// must ALL return their context's error: a nil return is a wake-up nobody issued (kind=invented-wakeup), e.g. a
+// token that was sent into the channel of a node whose owner had already given up and recycled it.
+// No tight timing: the only time bounds are for hangs (seconds).
+func bcastExpiry(seed int64, rounds, waiters, probes int) {
+	rng := rand.New(rand.NewSource(seed))
+	verifhook.SetMode(verifhook.Chaos)
+	l := &ownedMutex{}
+	c := syncx.NewCond(l)
+	var totNil, totErr, totProbes int
+	for r := 0; r < rounds; r++ {
+		ctx, cancel := context.WithCancel(context.Background())
+		started := 0
+		var nilCnt, errCnt atomic.Int64
+		var wg sync.WaitGroup
+		for i := 0; i < waiters; i++ {
+			wg.Add(1)
+			go func() {
+				defer wg.Done()
+				l.Lock()
+				started++
+				err := c.Wait(ctx)
+				if err == nil {
+					nilCnt.Add(1)
+				} else {
+					errCnt.Add(1)
+				}
+				l.Unlock()
+			}()
+		}
+		dl := time.Now().Add(bound)
+		for {
+			l.Lock()
+			ok := started == waiters
+			l.Unlock()
+			if ok {
+				break
+			}
+			if time.Now().After(dl) {
+				fmt.Printf("VIOLATION kind=enqueue-hang scenario=bcast-expiry round=%d\n", r)
+				dump()
+				return
+			}
+			runtime.Gosched()
+		}
+		// cancel() and Broadcast() together (random order of release, random tiny skew)
+		start := make(chan struct{})
+		var act sync.WaitGroup
+		skew := time.Duration(rng.Intn(40)) * time.Microsecond
+		first := rng.Intn(2)
+		act.Add(2)
+		go func() {
+			defer act.Done()
+			<-start
+			if first == 0 {
+				time.Sleep(skew)
+			}
+			cancel()
+		}()
+		go func() {
+			defer act.Done()
+			<-start
+			if first == 1 {
+				time.Sleep(skew)
+			}
+			c.Broadcast()
+		}()
+		close(start)
+		act.Wait()
+		fin := make(chan struct{})
+		go func() { wg.Wait(); close(fin) }()
+		select {
+		case <-fin:
+		case <-time.After(bound):
+			fmt.Printf("VIOLATION kind=broadcast scenario=bcast-expiry round=%d waiters=%d returned=%d: waiters still parked after cancel()+Broadcast()\n",
+				r, waiters, nilCnt.Load()+errCnt.Load())
+			dump()
+			return
+		}
+		totNil += int(nilCnt.Load())
+		totErr += int(errCnt.Load())
+		// no signal is issued from here on: every probe must time out
+		var invented atomic.Int64
+		var firstBad atomic.Int64
+		firstBad.Store(-1)
+		const batch = 16
+		for done := 0; done < probes; done += batch {
+			var pw sync.WaitGroup
+			for j := 0; j < batch && done+j < probes; j++ {
+				pw.Add(1)
+				go func(id int) {
+					defer pw.Done()
+					pctx, pcancel := context.WithTimeout(context.Background(), 2*time.Millisecond)
+					defer pcancel()
+					l.Lock()
+					err := c.Wait(pctx)
+					l.Unlock()
+					if err == nil {
+						invented.Add(1)
+						firstBad.CompareAndSwap(-1, int64(id))
+					}
+				}(done + j)
+			}
+			pfin := make(chan struct{})
+			go func() { pw.Wait(); close(pfin) }()
+			select {
+			case <-pfin:
+			case <-time.After(bound):
+				fmt.Printf("VIOLATION kind=cancelled-stuck scenario=bcast-expiry round=%d: probe waiters with a 2 ms timeout have not returned after %v\n", r, bound)
+				dump()
+				return
+			}
+		}
+		totProbes += probes
+		if invented.Load() > 0 {
+			fmt.Printf("VIOLATION kind=invented-wakeup scenario=bcast-expiry round=%d waiters=%d (nil=%d err=%d after cancel()+Broadcast()) probes=%d: %d probe Wait(s) returned nil although no Signal/Broadcast was issued after the round's Broadcast returned (first probe %d)\n",
+				r, waiters, nilCnt.Load(), errCnt.Load(), probes, invented.Load(), firstBad.Load())
+			return
+		}
+	}
+	verifhook.SetMode(verifhook.Off)
+	fmt.Printf("ok scenario=bcast-expiry rounds=%d waiters=%d nil=%d err=%d probes=%d all-timed-out\n", rounds, waiters, totNil, totErr, totProbes)
+}
+
+// firstUse — directed scenario "concurrent-first-use":
+//
+//	c13-cond-stress <seed> first-use <rounds>
+//
+// Per round a FRESH `syncx.Cond{L: &mu}` literal (not NewCond): a waiter and an unlocked Signal start together
+// (both perform the lazy initialisation). Then the main goroutine takes and releases mu until the waiter has
+// announced itself (it announces under mu just before Wait; Wait enqueues before it releases mu), so the waiter
+// is in the list — unless the first Signal already woke it. A second Signal must wake it within a bound of
+// seconds; otherwise kind=lost-signal (the waiter sits in a list nobody signals).
+func firstUse(seed int64, rounds int) {
+	rng := rand.New(rand.NewSource(seed))
+	verifhook.SetMode(verifhook.Chaos)
+	early := 0
+	for r := 0; r < rounds; r++ {
+		mu := &ownedMutex{}
+		c := &syncx.Cond{L: mu}
+		started := false
+		ret := make(chan error, 1)
+		start := make(chan struct{})
+		sigDone := make(chan struct{})
+		skew := time.Duration(rng.Intn(30)) * time.Microsecond
+		first := rng.Intn(2)
+		go func() {
+			<-start
+			if first == 0 {
+				time.Sleep(skew)
+			}
+			mu.Lock()
+			started = true
+			err := c.Wait(context.Background())
+			mu.Unlock()
+			ret <- err
+		}()
+		go func() {
+			<-start
+			if first == 1 {
+				time.Sleep(skew)
+			}
+			c.Signal()
+			close(sigDone)
+		}()
+		close(start)
+		select {
+		case <-sigDone:
+		case <-time.After(bound):
+			fmt.Printf("VIOLATION kind=signal-hang scenario=first-use round=%d: the first Signal did not return\n", r)
+			dump()
+			return
+		}
+		dl := time.Now().Add(bound)
+		for {
+			mu.Lock()
+			ok := started
+			mu.Unlock()
+			if ok {
+				break
+			}
+			if time.Now().After(dl) {
+				fmt.Printf("VIOLATION kind=enqueue-hang scenario=first-use round=%d\n", r)
+				dump()
+				return
+			}
+			runtime.Gosched()
+		}
+		// the waiter is in the list now (or was already woken by the first Signal)
+		woken := false
+		select {
+		case err := <-ret:
+			if err != nil {
+				fmt.Printf("VIOLATION kind=wrong-error scenario=first-use round=%d err=%v\n", r, err)
+				return
+			}
+			woken = true
+			early++
+		default:
+		}
+		if !woken {
+			c.Signal()
+			select {
+			case err := <-ret:
+				if err != nil {
+					fmt.Printf("VIOLATION kind=wrong-error scenario=first-use round=%d err=%v\n", r, err)
+					return
+				}
+			case <-time.After(bound):
+				fmt.Printf("VIOLATION kind=lost-signal scenario=first-use round=%d: fresh syncx.Cond{L: &mu} literal, first use = Wait concurrent with an unlocked Signal; the waiter is parked (it released mu inside Wait) and a second Signal did not wake it within %v\n", r, bound)
+				dump()
+				return
+			}
+		}
+	}
+	verifhook.SetMode(verifhook.Off)
+	fmt.Printf("ok scenario=first-use rounds=%d woken-by-first-signal=%d\n", rounds, early)
 }
